@@ -146,6 +146,20 @@ def mon_c04(run, case, stmts):
             site = "first-attempt" if att == 0 else "retry-attempt"
             run.v("C04", "attempt_entered_twice", site,
                   f"{p}: at-most-once function entered {len(es)} times for attempt index {att} (invocations {[x['inv'] for x in es]})")
+    # an attempt found started-but-unfinished is judged "according to the retry strategy": the strategy is asked about
+    # THAT attempt (1 + retries recorded so far) and its answer is what gets recorded
+    b = run.backend
+    for c in run.strategy_calls:
+        if c.get("wfc") or c["err"] != "StepInterruptedError":
+            continue
+        s = stmts.get(c["path"])
+        if s is None or s.get("sem") != "most":
+            continue
+        log = [e for e in b.log if b.path_of.get(e["upd"]["Id"]) == c["path"]]
+        want = 1 + sum(1 for e in log if e["upd"]["Action"] == "RETRY" and e.get("clk", 0) < c["clk"])
+        if c["attempts_made"] != want:
+            run.v("C04", "interrupted_attempt_judged_as_another_attempt", "first-attempt" if want == 1 else "retry-attempt",
+                  f"{c['path']}: attempt {want} was found interrupted (invocation {c['inv']}) but the retry strategy was asked about attempt {c['attempts_made']}")
 
 
 # ------------------------------------------------------------------------------------------------ C07 (liveness part)
